@@ -148,7 +148,7 @@ def run(ctx):
         ctx.tlc_check("chain", "MCStateHistory.tla", "StateHistory_casm_thorough.cfg", timeout=3000)
 
     fix = h4_fixed()
-    bs = behaviours(ctx, "StateHistory_sim.cfg", 10 if thorough else 2, 17 * (150 if thorough else 70), fix, 0)
+    bs = behaviours(ctx, "StateHistory_sim.cfg", 8 if thorough else 2, 17 * (150 if thorough else 70), fix, 0)
     res = run_engine_keep(ctx, binary, "TestHistReplay", {"behaviours": bs}, timeout=3000)
     ctx.absorb(res, "statehist", "TestHistReplay")
     # concurrent round: readers of the retained blocks during Store ; RevertHead cycles
